@@ -115,6 +115,41 @@ Example C09_nonvacuous :
 Proof. vm_compute. repeat split. Qed.
 Print Assumptions C09_nonvacuous.
 
+(* ---- plugins/auth/radius/accounting.go: the counters on the RADIUS wire ----
+   What an accounting server reconstructs from Acct-*-Octets + Acct-*-Gigawords (and Acct-*-Packets) of an
+   Accounting-Request is exactly the value handed to the provider — for EVERY Acct-Status-Type st (Start, Interim,
+   Stop), every octet counter < 2^64 and every packet counter < 2^32 (RADIUS cannot carry more). *)
+Theorem C09_wire_roundtrip :
+  forall st c, wire_range c = true -> decode_wire (encode_wire st c) = c.
+Proof. exact wire_roundtrip. Qed.
+Print Assumptions C09_wire_roundtrip.
+
+(* hence the order of two reports is preserved on the wire, whatever their status types *)
+Theorem C09_wire_monotone :
+  forall st st' c c', wire_range c = true -> wire_range c' = true -> c4_le c c' ->
+  c4_le (decode_wire (encode_wire st c)) (decode_wire (encode_wire st' c')).
+Proof. exact wire_monotone. Qed.
+Print Assumptions C09_wire_monotone.
+
+(* end to end: the stream as decoded by the accounting server never goes backwards *)
+Theorem C09_monotone_on_wire :
+  forall g evs, lrun_wraps repaired g sst0 evs = false -> no_prune evs = true ->
+  forallb (fun o => wire_range (counters_of o)) (outputs (snd (lrun repaired g sst0 evs))) = true ->
+  nondecreasing c4z (map through_wire (outputs (snd (lrun repaired g sst0 evs)))) = true.
+Proof. exact monotone_on_wire. Qed.
+Print Assumptions C09_monotone_on_wire.
+
+(* a Stop at 2^32 + 2000000 octets carries Gigawords 1; dropping the attribute would decode to 2000000 *)
+Example C09_wire_nonvacuous :
+  let c := C4 (W32 + 2000000) (2 * W32 + 9000) 4296967 (W32 - 1) in
+  wire_range c = true /\ w_in_giga (encode_wire 2 c) = Some 1 /\ w_out_giga (encode_wire 2 c) = Some 2 /\
+  w_in_oct (encode_wire 2 c) = 2000000 /\ decode_wire (encode_wire 2 c) = c /\
+  w_in_giga (encode_wire 3 (C4 (W32 - 1) 0 0 0)) = None /\
+  forallb (fun o => wire_range (counters_of o)) (outputs (snd (lrun repaired false sst0 ex_hist))) = true.
+Proof. vm_compute. repeat split. Qed.
+Print Assumptions C09_wire_nonvacuous.
+
+
 (* an l2gw session: ticks read the l2gw stats segment (entries 3 = access, 4 = handoff), the segment restarts
    (900 -> 40), the handoff index is lost by a restart until the session is restored; the Stop reads the
    interface table at index 3 (value 7), as handleSessionRelease does for every access type *)
